@@ -300,3 +300,16 @@ PROPS["C05"] = {
               "require_labels": ["history-scenario", "deserialization-scenario", "failure-shape-outcomes"]},
     "thorough": {"configs": ["default", "g1_4_1_1", "g1_16_4_1", "g2_2_1_4"], "cases": 200000, "floor_evaluations": 400000},
 }
+
+PROPS["C20"] = {
+    "title": "Distinct documents can be used from distinct threads without synchronisation",
+    "src": "c20.cpp",
+    "tsan": True,
+    "level": "exploration",
+    "technique": "generated per-thread programs (model-checked API history, build, serialize and deserialize both formats with a shared filter, copy/compare against a shared read-only document, number parsing) run on 2/4/8 threads x 50 repetitions under ThreadSanitizer (happens-before race detection, schedule-independent for accesses that occur) and under ASan/UBSan, with a sequential-transcript differential",
+    "rule": "case = 2, 4 or 8 threads, each running its own generated program (12-operation model-checked history on two private documents; a generated document with floats serialized as JSON, pretty JSON and MessagePack; four deserializations incl. a filter read from the shared document as JsonVariantConst; copies from and comparisons with the shared document; literal parsing) 50 times after a start barrier, while one further document is only read; the transcript of every repetition must equal the transcript of the same program run sequentially before; non-trivial (ASan build) = a deserialization was observed to overlap a float serialization of another thread (relaxed counters), (TSan build) every case; distinct = hash of the thread seeds",
+    "level_text": "Exploration of schedules only as far as ThreadSanitizer makes the verdict schedule-independent: an unsynchronised pair of accesses to library state is reported whenever both accesses occur in the run, whatever the interleaving. The TSan build contains no synchronisation besides the start barrier and join. A second, ASan build runs the same cases to catch corruption TSan does not model.",
+    "level_note": "Races that need a specific interleaving and are invisible to happens-before analysis are out of reach; the library uses no atomics or locks. The default allocator (malloc) is shared and assumed thread-safe.",
+    "quick": {"configs": ["tsan", "default"], "cases": 160, "floor_evaluations": 300, "floor_nontrivial": 100, "timeout": 1500},
+    "thorough": {"configs": ["tsan", "default"], "cases": 10000, "floor_evaluations": 20000},
+}
